@@ -2095,6 +2095,10 @@ accumulator means six bytes will be moved.
 
 */
 func op_mvn(cpu *CPU) {
+	if cpu.M == 1 {
+		// the byte count is the full 16-bit C accumulator whatever the M flag says
+		cpu.RA = uint16(cpu.RAh)<<8 | uint16(cpu.RAl)
+	}
 	dst := cpu.nRead(cpu.RK, cpu.StepInfo.Addr)
 	src := cpu.nRead(cpu.RK, cpu.StepInfo.Addr+1)
 
@@ -2119,6 +2123,10 @@ func op_mvn(cpu *CPU) {
 
 // MVP - MoVe memory Positive
 func op_mvp(cpu *CPU) {
+	if cpu.M == 1 {
+		// the byte count is the full 16-bit C accumulator whatever the M flag says
+		cpu.RA = uint16(cpu.RAh)<<8 | uint16(cpu.RAl)
+	}
 	dst := cpu.nRead(cpu.RK, cpu.StepInfo.Addr)
 	src := cpu.nRead(cpu.RK, cpu.StepInfo.Addr+1)
 
